@@ -18,8 +18,7 @@ Qed.
 
 Lemma mem_false_In v l : mem v l = false <-> ~ In v l.
 Proof.
-  rewrite <- mem_In. destruct (mem v l); split; intros H; try congruence.
-  exfalso. apply H. reflexivity.
+  rewrite <- mem_In. destruct (mem v l); split; intros H; congruence.
 Qed.
 
 Lemma mem_app v l1 l2 : mem v (l1 ++ l2) = mem v l1 || mem v l2.
